@@ -172,6 +172,26 @@ PROPS["C09"] = {
     ],
 }
 
+PROPS["C10"] = {
+    "engine": "rwsim",
+    "level": "exploration",
+    "quick_runs": 2500,
+    "thorough_runs": 50000,
+    "quick_wall": 240,
+    "thorough_wall": 2400,
+    "params": {"align_p": 0.7, "exotic_p": 0.3, "empty_session_p": 0.15, "patch_align_p": 0.15},
+    "rule": "seeded histories of edit sessions with an empty apply() before the first and after every session (dump with UUIDs and "
+    "addresses must be unchanged, leafFunctions excepted, and a second empty apply() must change nothing); after every edit "
+    "session the alignment requirements that held before and those of blocks added by patches must hold and padding must be "
+    "minimal whole nops / zeros covered by blocks; 30% of the modules are 'exotic' (gaps before and between blocks, "
+    "uninitialized tails with and without blocks, zero-sized and overlapping blocks) and only see empty sessions: since every "
+    "apply() splits every interval and joins it again this is the split/join round trip; distinct = (module, sessions) digest; "
+    "non-trivial = at least one empty session ran",
+    "real_vs_stub": RW_REAL,
+    "level_text": "seeded exploration of histories; PARTIAL claim: the standalone parameters of split_byte_interval / join_byte_intervals (explicit tables, nop_encodings, alignment argument, foreign decode modes) are pure configuration with no history or schedule in it and are not covered",
+    "assumptions": ["exotic modules are only exercised by empty sessions (the listing model has no notion of uncovered or uninitialized bytes)"],
+}
+
 # (moved below)
 # engines built separately contribute their own entries
 import importlib as _il
